@@ -1,16 +1,22 @@
 """C18 - websocket channels stay subscribed across faults and route correctly (DESIGN.md section 4, C18).
 
-The real websocket clients (a minimal generic subclass of core WebSocketClient, Binance with a real RealtimeDispatcher so
-that keep-alive jobs really run, Bitstamp public and private) with an injected fake session on the virtual loop, virtual
-time.time / utc_now. The environment is a sequence of server behaviours and client-side registrations, explored
-exhaustively up to a depth; the fake server acts only at client-quiescent points.
+The real websocket clients (a minimal generic subclass of core WebSocketClient, Binance reached through the real
+Exchange / WebsocketManager / account objects under a real RealtimeDispatcher so that keep-alive jobs really run, Bitstamp
+public and private) with an injected fake session on the virtual loop, virtual time module / utc_now. The environment is a
+sequence of server behaviours and client-side registrations, explored exhaustively up to a depth; the fake server acts only
+at client-quiescent points.
+
+Binance families: `binance` (public trade stream + SPOT user-data stream, full alphabet), `binance-cross` and
+`binance-isolated` (the cross-margin / isolated-margin user-data stream, the part of the alphabet that matters to a
+user-data stream), `binance-two` (spot AND cross-margin user-data streams on the one shared client from the start, an
+isolated-margin one registered later; messages and listen-key expiry per stream). The fake server records which endpoint
+(and symbol) issued each listen key and which key / endpoint / symbol each keep-alive PUT names.
 """
 import asyncio
 import collections
 import datetime
 import itertools
 import json
-import types
 
 import basana as bs
 from basana.core import dt as bdt
@@ -18,23 +24,38 @@ from basana.core import websockets as cws
 
 from mc.framework import Result, h64
 from mc.vloop import VLoop, Deadlock, Horizon, StepCap, Livelock
+from mc.vtime import VirtualTime
 from worlds.ws import Env, FakeSession
 
 PROPERTY = "C18"
 RULE = ("case = (client family, sequence of environment actions: channel message, message for an unknown channel, garbage "
-        "text, binary frame, subscription ack / error, reconnect request, clean close, abrupt drop, listen-key expiry, next "
-        "connect fails, next HTTP call (listen key / token) fails, next HTTP call or next send is slow, register a new "
-        "channel, let time pass); every sequence up to the depth is executed on the real client. Distinct = distinct "
-        "cases; non-trivial = more than one connection was made or a channel was registered / re-subscribed while connected.")
+        "text, binary frame, subscription ack / error, reconnect request, clean close, abrupt drop, listen-key expiry (per "
+        "user-data stream), next connect fails, next HTTP call (listen key / token) fails, next HTTP call or next send is "
+        "slow, register a new channel / a further user-data stream, let time pass); every sequence up to the depth is "
+        "executed on the real client. Distinct = distinct cases; non-trivial = more than one connection was made or a "
+        "channel was registered / re-subscribed while connected.")
 ASSUMPTIONS = [
-    "fake aiohttp session (ws_connect / post / put) on a virtual event loop; virtual time.time for basana.core.websockets "
-    "and a virtual utc_now; actions are 0.06 virtual s apart, back-off 0.05 s, keep-alive period 0.2 s",
+    "fake aiohttp session (ws_connect / post / put) on a virtual event loop; the `time` attribute of basana.core.websockets "
+    "is a proxy of the time module whose clocks all read the virtual clock, and utc_now is virtual; actions are 0.06 "
+    "virtual s apart, back-off 0.05 s, keep-alive period 0.2 s",
     "the fake server acts only at client-quiescent points; a connection that dies before the client's first step owes no "
-    "SUBSCRIBE",
-    "bounded liveness: after the last action a fault-free suffix of 0.6 s must converge to 'all channels subscribed'",
+    "SUBSCRIBE; the server publishes user data only on a listen key that is subscribed on the live connection",
+    "bounded liveness: after the last action a fault-free suffix of 0.6 s must converge to 'all channels subscribed'; after "
+    "a server-requested reconnect a new connection attempt must follow within 0.24 s and, when no scripted fault is "
+    "pending, a new connection with every channel subscribed",
+    "a listen key is valid from its creation until the server declares it expired; as documented by Binance, a POST to an "
+    "endpoint that has a valid key returns that key and extends it (it counts as a refresh); a user-data stream counts as subscribed "
+    "when a valid key of its own endpoint (and symbol) is in a SUBSCRIBE frame of the live connection; a keep-alive counts "
+    "for a key only if it names that key and goes to the endpoint (and symbol) that issued it; keep-alive gaps are measured "
+    "per key, from the SUBSCRIBE frame until the connection goes down, the key expires or the run ends; tolerance one poll "
+    "period (+ the scripted HTTP slowness)",
+    "whether the listenKeyExpired notice itself is forwarded to the user-data event source is left open by the statement: "
+    "both are accepted",
 ]
-BOUNDS = {"quick": dict(depth={"generic": 4, "binance": 4, "bitstamp-public": 4, "bitstamp-private": 4}),
-          "thorough": dict(depth={"generic": 5, "binance": 5, "bitstamp-public": 5, "bitstamp-private": 5})}
+BOUNDS = {"quick": dict(depth={"generic": 4, "binance": 4, "binance-cross": 4, "binance-isolated": 4, "binance-two": 4,
+                               "bitstamp-public": 4, "bitstamp-private": 4}),
+          "thorough": dict(depth={"generic": 5, "binance": 5, "binance-cross": 5, "binance-isolated": 5, "binance-two": 5,
+                                  "bitstamp-public": 5, "bitstamp-private": 5})}
 EXPLANATION = ("exhaustive environment-sequence exploration of the real clients on a virtual loop; every case is an "
                "implementation run")
 EPOCH = datetime.datetime(2020, 1, 1, tzinfo=datetime.timezone.utc)
@@ -43,12 +64,20 @@ BACKOFF = 0.05
 STEP = 0.06
 PB = bs.Pair("BTC", "USDT")
 PS = bs.Pair("BTC", "USD")
+# user-data streams: endpoint (and symbol) that issues and refreshes the listen key, from Binance's API documentation
+ISSUER = {"spot": ("/api/v3/userDataStream", None), "cross": ("/sapi/v1/userDataStream", None),
+          "isolated": ("/sapi/v1/userDataStream/isolated", "BTCUSDT")}
+USER_STREAMS = {"binance": {"user": "spot"}, "binance-cross": {"user": "cross"}, "binance-isolated": {"user": "isolated"},
+                "binance-two": {"user": "spot", "user2": "cross"}}
 
 ACTIONS = {
     "generic": ["tick", "msg_a", "msg_b", "unknown_channel", "garbage", "binary", "reconnect_req", "resub_a", "close", "drop",
                 "fail_connect", "slow_send", "add_channel"],
     "binance": ["tick", "msg_trade", "msg_user", "expired", "garbage", "unknown_stream", "ack", "sub_error", "close", "drop",
                 "fail_connect", "fail_http", "slow_http", "add_channel"],
+    "binance-cross": ["tick", "msg_user", "expired", "close", "drop", "fail_connect", "fail_http", "slow_http", "add_channel"],
+    "binance-isolated": ["tick", "msg_user", "expired", "close", "drop", "fail_connect", "fail_http", "slow_http", "add_channel"],
+    "binance-two": ["tick", "msg_user", "msg_user2", "expired", "expired2", "add_user3", "close", "drop", "fail_http", "slow_http"],
     "bitstamp-public": ["tick", "msg_trades", "msg_trades2", "msg_orders", "reconnect_req", "bts_error", "sub_failed", "garbage", "unknown_event",
                         "close", "drop", "fail_connect", "slow_send", "add_channel"],
     "bitstamp-private": ["tick", "msg_trades", "msg_trades2", "msg_orders", "reconnect_req", "sub_failed", "garbage", "close", "drop",
@@ -104,17 +133,23 @@ def run_case(fam, actions):
     loop = VLoop()
     env = Env(loop)
     saved_now = bdt.utc_now
-    saved_time = cws.time
+    patched = []
     bdt.utc_now = lambda: EPOCH + datetime.timedelta(seconds=loop.time())
-    cws.time = types.SimpleNamespace(time=lambda: 1e9 + loop.time())
+    vt = VirtualTime(lambda: 1e9 + loop.time())
+    if getattr(cws, "time", None) is not None:  # a module that stops using `time` is left alone
+        patched.append((cws, cws.time))
+        cws.time = vt
     problems = []
     got = collections.Counter()       # events popped per source name
     sent_msgs = collections.Counter()  # channel messages delivered per source name
     interesting = [False]
+    binance = fam.startswith("binance")
     try:
         sess = FakeSession(env)
         d = None
-        sources = {}  # name -> (channel key on the wire as the oracle sees it, source)
+        sources = {}  # name -> source (non-dispatcher families) / True (Binance: events are counted by the handlers)
+        users = {}    # Binance: user-data stream name -> issuer (endpoint path, symbol)
+        public = set()  # Binance: public stream names registered so far
         if fam == "generic":
             cli = GenericClient("ws://fake", session=sess)
             for name in ("a", "b"):
@@ -122,39 +157,48 @@ def run_case(fam, actions):
                 cli.set_channel_event_source(name, src)
                 sources[name] = src
 
-            def wanted():
-                return set(cli._event_sources)
-
             def subscribed(ws):
                 s = set()
                 for _, m in ws.sent:
                     s.update(m.get("subscribe", []))
                 return s
-        elif fam == "binance":
-            from basana.external.binance import websockets as bws, spot, user_data, trades, client as bcli
+
+            def missing(ws):
+                return sorted(set(cli._event_sources) - subscribed(ws))
+        elif binance:
+            from basana.external.binance import exchange as bx, trades
+            from basana.external.binance import websockets as bws
+            if getattr(bws, "time", None) is not None:
+                patched.append((bws, bws.time))
+                bws.time = vt
             d = bs.realtime_dispatcher(max_concurrent=5)
             d.idle_sleep = 0.01
-            cfg = {"api": {"websockets": {"spot": {"user_data_stream": {"heartbeat": KA}}}}}
-            api = bcli.APIClient("k", "s", session=sess)
-            cli = bws.WebSocketClient(d, api, session=sess, config_overrides=cfg)
-            tchan = bws.PublicChannel(trades.get_channel(PB))
-            uchan = spot.SpotUserDataChannel()
-            for name, ch, src in (("trade", tchan, trades.WebSocketEventSource(PB, cli)), ("user", uchan, user_data.WebSocketEventSource(cli))):
-                cli.set_channel_event_source_ex(ch, src)
-                sources[name] = src
+            uds = {"user_data_stream": {"heartbeat": KA}}
+            cfg = {"api": {"websockets": {"spot": uds, "cross_margin": uds, "isolated_margin": uds}}}
+            ex = bx.Exchange(d, "k", "s", session=sess, config_overrides=cfg)
 
-                async def h(ev, name=name):
+            def handler(name):
+                async def h(ev):
                     got[name] += 1
-                d.subscribe(src, h)
+                return h
 
-            def wanted():
-                w = set()
-                for alias, ch in cli._alias_to_channel.items():
-                    try:
-                        w.add(ch.stream)
-                    except AssertionError:
-                        w.add("<unresolved:%s>" % alias)
-                return w
+            def register_user(name, kind):
+                if kind == "spot":
+                    ex.spot_account.subscribe_to_user_data_events(handler(name))
+                elif kind == "cross":
+                    ex.cross_margin_account.subscribe_to_user_data_events(handler(name))
+                else:
+                    ex.isolated_margin_account.subscribe_to_user_data_events(PB, handler(name))
+                users[name] = ISSUER[kind]
+                sources[name] = True
+
+            ex.subscribe_to_trade_events(PB, handler("trade"))
+            sources["trade"] = True
+            tstream = trades.get_channel(PB)
+            public.add(tstream)
+            for name, kind in USER_STREAMS[fam].items():
+                register_user(name, kind)
+            cli = ex._ws_mgr._get_ws_client()  # the one shared client (only to set the back-off used by the scenario)
 
             def subscribed(ws):
                 s = set()
@@ -162,6 +206,21 @@ def run_case(fam, actions):
                     if m.get("method") == "SUBSCRIBE":
                         s.update(m["params"])
                 return s
+
+            def valid_keys(name):
+                return [k for k, own in env.key_owner.items() if own == users[name] and k not in env.expired_at]
+
+            def live_key(ws, name):
+                """The valid listen key of that user-data stream that is subscribed on this connection, if any."""
+                have = subscribed(ws)
+                keys = [k for k in valid_keys(name) if k in have]
+                return keys[-1] if keys else None
+
+            def missing(ws):
+                have = subscribed(ws)
+                out = sorted(public - have)
+                out += [f"{name} (no valid listen key of {users[name]} subscribed)" for name in users if live_key(ws, name) is None]
+                return out
         else:
             from basana.external.bitstamp import websockets as sws, trades as strades, orders as sorders, order_book as sbook
             private = fam == "bitstamp-private"
@@ -182,9 +241,6 @@ def run_case(fam, actions):
             for name in ("trades", "orders", "trades2"):
                 cli.set_channel_event_source(chans[name], sources[name])
 
-            def wanted():
-                return {(f"{c}-77" if private else c) for c in cli._event_sources}
-
             def subscribed(ws):
                 s = set()
                 for _, m in ws.sent:
@@ -193,6 +249,9 @@ def run_case(fam, actions):
                         if private and "auth" not in m["data"]:
                             problems.append(("no-auth", "private subscription without auth token"))
                 return s
+
+            def missing(ws):
+                return sorted({(f"{c}-77" if private else c) for c in cli._event_sources} - subscribed(ws))
         cli.backoff_secs = BACKOFF
 
         def check(tag):
@@ -200,10 +259,28 @@ def run_case(fam, actions):
             if ws is None:
                 problems.append(("not-connected", f"{tag}: no live connection after the fault-free suffix"))
                 return
-            want, have = wanted(), subscribed(ws)
-            if not want <= have:
-                problems.append(("channel-not-subscribed", f"{tag}: {sorted(want - have)} not subscribed on live connection "
-                                 f"#{ws.idx} (subscribed: {sorted(have)})"))
+            miss = missing(ws)
+            if miss:
+                problems.append(("channel-not-subscribed", f"{tag}: {miss} not subscribed on live connection "
+                                 f"#{ws.idx} (subscribed: {sorted(subscribed(ws))})"))
+
+        async def after_reconnect_request(ws):
+            """A server-requested reconnect must lead to a new connection, with every channel subscribed, in bounded time."""
+            interesting[0] = True
+            n_attempts, idx = len(env.connect_times), ws.idx
+            faults = env.fail_next_connect or env.fail_next_http or env.http_delay or env.send_delay
+            await asyncio.sleep(4 * STEP)  # back-off + longer than any scripted slowness
+            if len(env.connect_times) <= n_attempts:
+                problems.append(("no-reconnection", "the server asked for a reconnection: no new connection attempt within "
+                                 f"{4 * STEP:.2f}s"))
+            elif not faults:
+                w2 = env.live()
+                if w2 is None or w2.idx <= idx:
+                    problems.append(("no-reconnection", "the server asked for a reconnection: no new connection is up after "
+                                     f"{4 * STEP:.2f}s"))
+                elif missing(w2):
+                    problems.append(("channel-not-subscribed", f"after the requested reconnection: {missing(w2)} not subscribed "
+                                     f"on connection #{w2.idx}"))
 
         trade = {"id": 1, "amount_str": "1", "price_str": "2", "type": 0, "microtimestamp": "1577836800000000",
                  "buy_order_id": 1, "sell_order_id": 2, "amount": 1, "price": 2}
@@ -230,14 +307,24 @@ def run_case(fam, actions):
                         if "c" not in cli._event_sources:
                             sources["c"] = GenericSource(cli, "c")
                             cli.set_channel_event_source("c", sources["c"])
-                    elif fam == "binance":
-                        if "ethusdt@trade" not in cli._event_sources:
+                    elif binance:
+                        # the dispatcher does not accept subscriptions while running: late channels are registered on the
+                        # websocket client itself
+                        if "ethusdt@trade" not in public:
                             cli.set_channel_event_source_ex(bws.PublicChannel("ethusdt@trade"),
                                                             trades.WebSocketEventSource(bs.Pair("ETH", "USDT"), cli))
+                            public.add("ethusdt@trade")
                     else:
                         c = sbook.get_channel(PS)
                         if c not in cli._event_sources:
                             cli.set_channel_event_source(c, sbook.WebSocketEventSource(PS, cli))
+                elif a == "add_user3":
+                    interesting[0] = interesting[0] or ws is not None
+                    if "user3" not in users:
+                        from basana.external.binance import isolated_margin, user_data
+                        cli.set_channel_event_source_ex(isolated_margin.IsolatedMarginUserDataChannel(PB),
+                                                        user_data.WebSocketEventSource(cli))
+                        users["user3"] = ISSUER["isolated"]
                 elif ws is None:
                     pass
                 elif fam == "generic":
@@ -248,6 +335,8 @@ def run_case(fam, actions):
                         ws.deliver("text", json.dumps({"channel": "zzz", "data": 1}))
                     elif a == "reconnect_req":
                         ws.deliver("text", json.dumps({"reconnect": True}))
+                        await after_reconnect_request(ws)
+                        continue
                     elif a == "resub_a":
                         interesting[0] = True
                         n_before, idx = len(ws.sent), ws.idx
@@ -258,42 +347,44 @@ def run_case(fam, actions):
                             problems.append(("no-resubscription-on-live-connection", "channel flagged for re-subscription was not "
                                              "re-subscribed on the live connection"))
                         continue
-                elif fam == "binance":
+                elif binance:
+                    uname = {"msg_user": "user", "msg_user2": "user2", "expired": "user", "expired2": "user2"}.get(a)
                     if a == "msg_trade":
-                        ws.deliver("text", json.dumps({"stream": tchan.stream, "data": {"e": "trade", "E": 1, "s": "BTCUSDT", "t": 1,
-                                                                                       "p": "1", "q": "1", "b": 1, "a": 2, "T": 1, "m": True}}))
+                        ws.deliver("text", json.dumps({"stream": tstream, "data": {"e": "trade", "E": 1, "s": "BTCUSDT", "t": 1,
+                                                                                   "p": "1", "q": "1", "b": 1, "a": 2, "T": 1, "m": True}}))
                         sent_msgs["trade"] += 1
-                    elif a == "msg_user":
-                        try:
-                            stream = uchan.stream
-                        except AssertionError:
-                            stream = None
-                        if stream:
-                            ws.deliver("text", json.dumps({"stream": stream, "data": {"e": "outboundAccountPosition", "E": 1, "u": 1, "B": []}}))
-                            if stream in subscribed(ws):
-                                sent_msgs["user"] += 1
-                            else:
-                                sent_msgs["user-maybe"] += 1
-                    elif a == "expired":
-                        try:
-                            stream = uchan.stream
-                        except AssertionError:
-                            stream = None
-                        if stream and stream in subscribed(ws):
+                    elif a in ("msg_user", "msg_user2"):
+                        key = live_key(ws, uname)
+                        if key:  # the server publishes user data only on a key that is subscribed on this connection
+                            ws.deliver("text", json.dumps({"stream": key, "data": {"e": "outboundAccountPosition", "E": 1, "u": 1, "B": []}}))
+                            sent_msgs[uname] += 1
+                    elif a in ("expired", "expired2"):
+                        key = live_key(ws, uname)
+                        if key:
                             interesting[0] = True
                             n_before, idx = len(ws.sent), ws.idx
                             failing = env.fail_next_http
-                            ws.deliver("text", json.dumps({"stream": stream, "data": {"e": "listenKeyExpired", "E": 1}}))
-                            sent_msgs["user"] += 1  # the expiry notice itself is a user data event
+                            env.expired_at[key] = loop.time()
+                            ws.deliver("text", json.dumps({"stream": key, "data": {"e": "listenKeyExpired", "E": 1}}))
+                            # whether the administrative notice is forwarded as a user-data event is left open
+                            sent_msgs[uname + "-maybe"] += 1
                             await asyncio.sleep(4 * STEP)
                             w2 = env.live()
                             if w2 is not None and w2.idx == idx and not failing:
-                                new = [m for _, m in ws.sent[n_before:] if m.get("method") == "SUBSCRIBE"]
-                                if not any(uchan.stream in m["params"] for m in new):
-                                    problems.append(("no-resubscription-on-live-connection", "expired listen key was not "
-                                                     "re-subscribed on the live connection"))
-                                elif uchan.stream == stream:
-                                    problems.append(("stale-listen-key", "re-subscribed with the expired listen key"))
+                                new = set()
+                                for _, m in ws.sent[n_before:]:
+                                    if m.get("method") == "SUBSCRIBE":
+                                        new.update(m["params"])
+                                own = [k for k in new if env.key_owner.get(k) == users[uname]]
+                                if any(k not in env.expired_at for k in own):
+                                    pass
+                                elif own or key in new:
+                                    problems.append(("stale-listen-key", f"stream {uname!r}: re-subscribed with the expired listen key "
+                                                     f"({sorted(own) or key})"))
+                                else:
+                                    problems.append(("no-resubscription-on-live-connection", f"stream {uname!r}: the expired listen "
+                                                     f"key was not replaced and re-subscribed on the live connection (new SUBSCRIBE "
+                                                     f"params: {sorted(new)})"))
                             continue
                     elif a == "ack":
                         ws.deliver("text", json.dumps({"result": None, "id": 1}))
@@ -313,6 +404,8 @@ def run_case(fam, actions):
                         sent_msgs["orders"] += 1
                     elif a == "reconnect_req":
                         ws.deliver("text", json.dumps({"event": "bts:request_reconnect", "channel": "", "data": ""}))
+                        await after_reconnect_request(ws)
+                        continue
                     elif a == "bts_error":
                         ws.deliver("text", json.dumps({"event": "bts:error", "data": {"code": 1}}))
                     elif a == "sub_failed":
@@ -367,27 +460,43 @@ def run_case(fam, actions):
                     got[name] += 1
         for name in sources:
             lo = sent_msgs[name]
-            hi = lo + (sent_msgs[name + "-maybe"] if name == "user" else 0)
+            hi = lo + sent_msgs[name + "-maybe"]
             if not lo <= got[name] <= hi:
                 problems.append(("routing", f"source {name!r} produced {got[name]} events for {lo}..{hi} messages of its channel"))
         # back-off
         for a, b in zip(env.connect_times, env.connect_times[1:]):
             if b - a < BACKOFF - 1e-9:
                 problems.append(("backoff", f"connection attempts at {a:.3f} and {b:.3f}, {b - a:.3f}s apart (< {BACKOFF})"))
-        # keep-alive: gaps between listen-key refreshes while the stream is subscribed
-        if fam == "binance":
+        # keep-alive, per listen key: while its stream is subscribed (from the SUBSCRIBE frame naming it until the connection
+        # goes down, the key expires or the run ends) the key must be refreshed - at the endpoint (and symbol) that issued it
+        # - at least once per period
+        if binance:
             end = getattr(env, "end_time", loop.time())
-            times = [t for (t, kind, _) in env.key_events]  # creations, refreshes and refresh attempts that failed
-            if times:
-                gaps = [b - a for a, b in zip(times, times[1:])] + [end - times[-1]]
-                # tolerance: one poll period of the dispatcher + one step of the scripted slowness / failures
-                tol = 0.05 + (2 * STEP if any(x in actions for x in ("slow_http", "fail_http", "close", "drop", "fail_connect", "expired")) else 0)
-                if max(gaps) > KA + tol:
-                    problems.append(("keep-alive-gap", f"listen key not refreshed for {max(gaps):.3f}s (period {KA}s); key events "
-                                     f"{[(round(t, 3), k) for t, k, _ in env.key_events]}"))
+            # tolerance: one poll period of the dispatcher + the scripted slowness / failure of an HTTP call
+            tol = 0.05 + (2 * STEP if any(x in actions for x in ("slow_http", "fail_http")) else 0)
+            for key, issuer in env.key_owner.items():
+                for ws in env.conns:
+                    t_sub = next((t for t, m in ws.sent if m.get("method") == "SUBSCRIBE" and key in m.get("params", [])), None)
+                    if t_sub is None:
+                        continue
+                    t_end = min(x for x in (ws.t_closed, env.expired_at.get(key), end) if x is not None)
+                    if t_end <= t_sub:
+                        continue
+                    # refreshes and refresh attempts that the harness made fail
+                    ref = sorted(t for (t, kind, k, path, sym) in env.key_events if kind in ("keepalive", "failed-PUT", "create") and k == key
+                                 and (path, sym) == issuer and t_sub <= t <= t_end)
+                    pts = [t_sub] + ref + [t_end]
+                    gap = max(b - a for a, b in zip(pts, pts[1:]))
+                    if gap > KA + tol:
+                        others = [(round(t, 3), kind, k, path, sym) for (t, kind, k, path, sym) in env.key_events
+                                  if kind != "create" and t_sub <= t <= t_end and not (k == key and (path, sym) == issuer)]
+                        problems.append(("keep-alive-gap", f"listen key {key} issued by {issuer} was subscribed on connection "
+                                         f"#{ws.idx} from {t_sub:.3f} to {t_end:.3f} and not refreshed for {gap:.3f}s (period {KA}s); "
+                                         f"its refreshes: {[round(t, 3) for t in ref]}; other keep-alive calls meanwhile: {others[:6]}"))
     finally:
         bdt.utc_now = saved_now
-        cws.time = saved_time
+        for m, t in patched:
+            m.time = t
     return dict(problems=problems, conns=len(env.conns), interesting=interesting[0] or len(env.conns) > 1)
 
 
